@@ -671,6 +671,12 @@ def prettyName : Ident → List OutChar
     | [] => []
     | _ :: r => up c :: r
 
+/-- `ClassName` as the C function is: at most `buf` (= BUFSIZ) characters are written into the static buffer (`j < BUFSIZ`) -/
+def classNameBuf (buf : Nat) (t : Ident) : List OutChar := (className t).take buf
+
+/-- `PrettyTmpName` as the C function is: at most `buf - 1` characters of the identifier are read (`i < BUFSIZ - 1`) -/
+def prettyNameBuf (buf : Nat) (t : Ident) : List OutChar := prettyName (t.take (buf - 1))
+
 /-- decimal digits of `n`, most significant first (`%d`) -/
 def digits (n : Nat) : List (Fin 10) :=
   if h : n < 10 then [⟨n, h⟩] else digits (n / 10) ++ [⟨n % 10, Nat.mod_lt _ (by decide)⟩]
